@@ -967,6 +967,24 @@ func facts() map[string]any {
 	out["max_accepted_min_scope_v6"] = maxOK(func(v uint8) (*ecs.Policy, error) { return ecs.Build(true, 0, 0, 0, v, nil) })
 	pb, errb := ecs.Build(true, 0, 0, 0, 0, []string{"10.0.0.0/8", "not-a-cidr"})
 	out["bad_network_rejected"] = pb == nil && errb != nil
+	// the fixed table of entries that are not CIDRs as written (gen.go): each
+	// alone, after a valid entry and before one must make Build fail closed
+	var rej []bool
+	var tab []string
+	for _, e := range badEntries {
+		ok := true
+		for _, l := range [][]string{{e}, {"10.0.0.0/8", e}, {e, "10.0.0.0/8"}, {"10.0.0.0/8", "10.0.0.0/8", e}} {
+			if p, err := ecs.Build(true, 24, 56, 24, 56, l); p != nil || err == nil {
+				ok = false
+			}
+		}
+		rej = append(rej, ok)
+		tab = append(tab, vlib.Hex([]byte(e)))
+	}
+	out["bad_entry_table"] = tab
+	out["bad_entry_table_rejected"] = rej
+	pdup, errdup := ecs.Build(true, 0, 0, 0, 0, []string{"10.0.0.0/8", "10.0.0.0/8"})
+	out["duplicate_network_accepted"] = pdup != nil && errdup == nil && len(pdup.ClientNetworks) == 2
 	// option codes as the library numbers them
 	out["code_subnet"] = int((&dns.EDNS0_SUBNET{Code: dns.EDNS0SUBNET}).Option())
 	out["code_cookie"] = int(dns.EDNS0COOKIE)
